@@ -148,6 +148,10 @@ func ResponseEncoder(ctx context.Context, w http.ResponseWriter) Encoder {
 				default:
 					enc = json.NewEncoder(w)
 				}
+			} else {
+				// malformed content type: default to JSON
+				enc = json.NewEncoder(w)
+				mt = "application/json"
 			}
 			SetContentType(w, mt)
 			return enc
